@@ -140,9 +140,9 @@ package signjar
 //@   before call verifyManifest(z, mfb): assert @member_digests_checked_against_the_same_manifest z == inz && sameslice(mfb, manifest)
 //@   on call verifyManifest(_, _) ret (e): mf = (e == nil)
 //@   ensures @every_signature_file_is_cms_verified_and_matched_to_the_manifest_and_members_are_digested_unless_skipped \
-//@        ret1 == nil ==> cms == len(ret0) && sf == len(ret0) && (!skipDigests ==> mf)
+//@        ret1 == nil ==> cms == len(ret0) && sf == len(ret0) && len(ret0) == len(sigfiles) && len(ret0) >= 1 && (!skipDigests ==> mf)
 //@   loop 0 sig "for _, f := range inz.File" invariant cms == 0 && sf == 0 && !mf
-//@   loop 1 sig "for base, sigfile := range sigfiles" invariant cms == len(sigs) && sf == len(sigs) && !mf && (sigs == nil || allocated(sigs))
+//@   loop 1 sig "for base, sigfile := range sigfiles" invariant cms == len(sigs) && sf == len(sigs) && !mf && (sigs == nil || allocated(sigs)) && len(sigs) == rangecount && len(sigfiles) >= 1
 //@
 //@ func verifyManifest
 //@   property C02
